@@ -5,6 +5,8 @@ import PlasVerif.Proofs.ConfigDomain
 import PlasVerif.Proofs.ConfigTotal
 import PlasVerif.Proofs.ConfigDest
 import PlasVerif.Proofs.ConfigHist
+import PlasVerif.Proofs.ConfigHistTotal
+import PlasVerif.Proofs.ConfigMain
 import PlasVerif.Proofs.ConfigRouting
 import PlasVerif.Proofs.ConfigReadBack
 import PlasVerif.Proofs.ConfigBuiltins
@@ -644,6 +646,127 @@ theorem history_observation_count (T : Table) (steps : List Step) (h : (hist fal
 example : ((hist false exR [.observe, .assign [115] [99] (.atom (.int 8)), .observe,
       .cli [⟨[45, 45, 99], [[57]]⟩], .observe] (init exR)).1.map fun st => readBack exR st 0)
     = [.ok (.atom (.str [120, 55, 37])), .ok (.atom (.str [120, 56, 37])), .ok (.atom (.str [120, 57, 37]))] := by decide
+
+/-- **A history inside the domain raises nothing.**  If every step is well-formed (file values addressed to scalar
+    options convert, every command-line occurrence is a registered option string of the right arity and type, assignments
+    name an existing option) and the denotation of every option after the whole history is defined (dictionary entries
+    convert, `--link` has 2 or 3 arguments, assigned values have the shape of the option's class), then no `read`, no
+    `parse_args`/`updateFromDict`, no assignment of the history raises. -/
+theorem history_defined_on_domain (T : Table) (hwf : WF T = true) (hwc : WFcli T = true) (steps : List Step)
+    (hdom : steps.all (stepWf T) = true)
+    (hden : ∀ i o, T[i]? = some o → (denHist T steps i).isSome = true) :
+    (hist false T steps (init T)).2 = none := by
+  have hty : ∀ i o, T[i]? = some o → typedVal o.ty (init T i) = true := by
+    intro i o hi
+    simp only [WF, Bool.and_eq_true, List.all_eq_true] at hwf
+    have := typedDflt_val o (hwf.2 o (List.mem_of_getElem? hi))
+    simpa [init, hi] using this
+  refine PlasVerif.Proofs.ConfigHistTotal.hist_total hwf hwc steps (init T) hty
+    (fun s hs => List.all_eq_true.mp hdom s hs) ?_
+  intro i o hi
+  have := hden i o hi
+  simpa [denHist, hi, init] using this
+
+/-- **Histories, both directions**: inside the domain a history raises nothing, is observed exactly once per read-back
+    step, and every observed state is the denotation of the steps before that read-back. -/
+theorem history_exact_on_domain (T : Table) (hwf : WF T = true) (hwc : WFcli T = true) (steps : List Step)
+    (hdom : steps.all (stepWf T) = true)
+    (hden : ∀ i o, T[i]? = some o → (denHist T steps i).isSome = true) :
+    (hist false T steps (init T)).2 = none ∧
+    (hist false T steps (init T)).1.length = (steps.filter isObserve).length ∧
+    ∀ s' ∈ (hist false T steps (init T)).1, ∃ pre post, steps = pre ++ Step.observe :: post ∧
+      ∀ i o, T[i]? = some o → denHist T pre i = some (s' i) := by
+  have h1 := history_defined_on_domain T hwf hwc steps hdom hden
+  refine ⟨h1, history_observation_count T steps h1, ?_⟩
+  refine history_no_stale_readback T hwf hwc steps ?_
+  intro s hs
+  -- assignments are well-shaped because the denotation is defined
+  cases s with
+  | assign sec key v =>
+    intro o ho hsec hkey
+    obtain ⟨i, hi⟩ := List.getElem?_of_mem ho
+    -- split the history at this assignment: the prefix denotation is defined, hence so is this step's
+    obtain ⟨pre, post, hsplit⟩ := List.append_of_mem hs
+    have hd := hden i o hi
+    simp only [denHist, hi, hsplit, List.foldlM_append, List.foldlM_cons, bind, Option.bind] at hd
+    cases hp : pre.foldlM (denStep T i o) o.dflt with
+    | none => simp [hp] at hd
+    | some c =>
+      simp only [hp, denStep, hsec, hkey, decide_true, Bool.and_self, if_true] at hd
+      by_cases hsh : shaped o.ty v = true
+      · exact hsh
+      · simp [hsh] at hd
+  | read f => trivial
+  | cli a => trivial
+  | observe => trivial
+
+/-- non-vacuity: the history of the previous example is inside the domain, and indeed raises nothing -/
+example : [Step.observe, .assign [115] [99] (.atom (.int 8)), .observe, .cli [⟨[45, 45, 99], [[57]]⟩], .observe].all (stepWf exR) = true ∧
+    (List.range 3).all (fun i => (denHist exR [.observe, .assign [115] [99] (.atom (.int 8)), .observe,
+      .cli [⟨[45, 45, 99], [[57]]⟩], .observe] i).isSome) = true ∧
+    (hist false exR [.observe, .assign [115] [99] (.atom (.int 8)), .observe, .cli [⟨[45, 45, 99], [[57]]⟩], .observe] (init exR)).2 = none ∧
+    WF exR = true ∧ WFcli exR = true := by decide
+
+/-! ## the entry point `plasTeX.client.main(argv)` -/
+
+/-- **`parse_args` recovers what was written.**  For every arrangement of `-c name` / `--config name` options, the
+    document and option strings with their words (values plain words, each option string with the number of words its
+    class takes, a "takes all following words" option not directly followed by the document), the word-level reading
+    returns exactly the configuration-file names, the positionals and the option occurrences, each in written order. -/
+theorem parse_args_recovers_pieces (T : Table) (ps : List Piece) (h : piecesOk T ps = true) :
+    splitArgv T ((renderPieces ps).length + 1) (renderPieces ps) {} =
+      .ok { configs := cfgNames ps, positionals := posWords ps, occs := occsOfPieces ps } := by
+  have := PlasVerif.Proofs.ConfigMain.splitArgv_pieces T ps ((renderPieces ps).length + 1) {} (by omega) h
+  simpa using this
+
+/-- **`client.main` is the layering**: defaults, then the named configuration files that exist *in the order of their
+    `-c`/`--config` options* (wherever these stand on the command line, a missing file is skipped, a file named twice is
+    read twice), then the command-line values. -/
+theorem main_is_layering (asIs : Bool) (T : Table) (fm : List (Str × File)) (ps : List Piece)
+    (hok : piecesOk T ps = true) (doc : Str) (hpos : posWords ps = [doc]) :
+    mainModel asIs T fm (renderPieces ps) =
+      run asIs T ((cfgNames ps).filterMap fun n => (fm.find? (·.1 = n)).map (·.2)) (occsOfPieces ps) := by
+  simp only [mainModel, parse_args_recovers_pieces T ps hok, bind, Except.bind, hpos]
+
+/-- … hence every option ends with the value the property prescribes for that layering -/
+theorem main_meets_den (T : Table) (hwf : WF T = true) (hwc : WFcli T = true) (fm : List (Str × File)) (ps : List Piece)
+    (hok : piecesOk T ps = true) (doc : Str) (hpos : posWords ps = [doc]) (st : St)
+    (h : mainModel false T fm (renderPieces ps) = .ok st) (i : Nat) (o : Opt) (hi : T[i]? = some o) :
+    den T ((cfgNames ps).filterMap fun n => (fm.find? (·.1 = n)).map (·.2)) (occsOfPieces ps) i = some (st i) := by
+  rw [main_is_layering false T fm ps hok doc hpos] at h
+  exact run_refines_den T hwf hwc _ _ st h i o hi
+
+/-- without exactly one document the entry point exits (argparse: "the following arguments are required: file" /
+    "unrecognized arguments") -/
+theorem main_needs_one_document (asIs : Bool) (T : Table) (fm : List (Str × File)) (ps : List Piece)
+    (hok : piecesOk T ps = true) (hpos : (posWords ps).length ≠ 1) :
+    mainModel asIs T fm (renderPieces ps) = .error .systemExit := by
+  simp only [mainModel, parse_args_recovers_pieces T ps hok, bind, Except.bind]
+  match hp : posWords ps, hpos with
+  | [], _ => rfl
+  | [_], h => simp [hp] at h
+  | _ :: _ :: _, _ => rfl
+
+/-- `--n 1 -c b doc --items x y --config a --flag` over `exT`: files are read in the order `b`, `a`; the list option takes
+    both words; the document may stand in the middle -/
+def exPieces : List Piece := [.occ ⟨[45, 45, 110], [[49]]⟩, .cfg false [98], .pos [100, 111, 99],
+  .occ ⟨[45, 45, 105, 116, 101, 109, 115], [[120], [121]]⟩, .cfg true [97], .occ ⟨[45, 45, 102, 108, 97, 103], []⟩]
+example : piecesOk exT exPieces = true ∧ posWords exPieces = [[100, 111, 99]] ∧ cfgNames exPieces = [[98], [97]] ∧
+    obs (mainModel false exT [([97], exF1), ([98], exF2)] (renderPieces exPieces)) 4
+      = some [.atom (.str [100]), .atom (.int 1), .atom (.bool true), .list [[99], [97], [98], [120], [121]]] := by decide
+/-- the document directly after `--items x` is swallowed by `nargs='*'`: not an unambiguous arrangement, and the entry point exits -/
+example : piecesOk exT [.occ ⟨[45, 45, 105, 116, 101, 109, 115], [[120]]⟩, .pos [100]] = false ∧
+    (mainModel false exT [] [[45, 45, 105, 116, 101, 109, 115], [120], [100]]).toOption = none := by decide
+
+/-- the option strings of the live table are option-like words and none of them is `-c` / `--config` -/
+theorem table_flags_optlike :
+    (PlasVerif.Generated.Config.table.flatMap fun o => o.flags ++ o.noflags).all
+      (fun f => optLike f && !(f = sDashC || f = sConfig)) = true := by decide
+
+/-- no option of the live table uses the dests `config` / `file` that `client.main` registers itself -/
+theorem table_reserved_dests_free :
+    PlasVerif.Generated.Config.table.all (fun o => !(o.dest = [99, 111, 110, 102, 105, 103] || o.dest = [102, 105, 108, 101])) = true := by
+  decide
 
 /-- hence the layering theorem applies to the live table -/
 theorem live_table_layering (files : List File) (argv : List Occ) (st : St)
